@@ -422,13 +422,21 @@ def unify_set_kinds(a, b):
         b.dom = z3.K(a.ek.sort(), z3.BoolVal(False))
 
 
+def def_array(ip, j, body, hint='arr'):
+    '''A fresh array constant A with  forall j. A[j] == body(j)  (pattern A[j]).  Used instead of
+    z3 lambdas so that list terms can appear inside quantifier patterns.'''
+    A = z3.Const(ip.fresh_name(hint), z3.ArraySort(j.sort(), body.sort()))
+    ip.assume(z3.ForAll([j], z3.Select(A, j) == body, patterns=[z3.Select(A, j)]))
+    return A
+
+
 def list_concat(ip, a, b):
     if a.ek is None:
         return VList(b.arr, b.n, b.ek)
     if b.ek is None:
         return VList(a.arr, a.n, a.ek)
     j = z3.Int(ip.fresh_name('j'))
-    arr = z3.Lambda([j], z3.If(j < a.n, z3.Select(a.arr, j), z3.Select(b.arr, j - a.n)))
+    arr = def_array(ip, j, z3.If(j < a.n, z3.Select(a.arr, j), z3.Select(b.arr, j - a.n)), 'cat')
     return VList(arr, z3.simplify(a.n + b.n), a.ek)
 
 
@@ -696,7 +704,10 @@ def norm_index(ip, i, n, node, what='list'):
         raise EngineError(f'non-integer index {i!r}')
     it = int_term(i)
     if ip.mode == 'spec':
-        return z3.simplify(z3.If(it < 0, it + n, it)) if not (isinstance(i, VConst) and i.py >= 0) else it
+        # specification indexing is plain selection (negative constants count from the end)
+        if isinstance(i, VConst) and i.py < 0:
+            return z3.simplify(n + it)
+        return it
     if isinstance(i, VConst):
         idx = it if i.py >= 0 else z3.simplify(n + it)
         ok = z3.simplify(z3.And(idx >= 0, idx < n))
@@ -740,9 +751,10 @@ def get_item(ip, obj, idx, node):
                 return VList(None, z3.IntVal(0), None)
             lo, hi = slice_bounds(ip, idx, obj.n)
             j = z3.Int(ip.fresh_name('j'))
-            arr = z3.Lambda([j], z3.Select(obj.arr, j + lo))
             if z3.is_int_value(lo) and lo.as_long() == 0:
                 arr = obj.arr
+            else:
+                arr = def_array(ip, j, z3.Select(obj.arr, j + lo), 'slice')
             return VList(arr, z3.simplify(z3.If(hi > lo, hi - lo, 0)), obj.ek)
         if obj.ek is None:
             raise PyRaise(VExc('IndexError'), node)
@@ -890,9 +902,9 @@ def set_item(ip, obj, idx, v, node):
             vn = v.n
             varr = v.arr if v.ek is not None else obj.arr
             old_arr, old_n = obj.arr, obj.n
-            obj.arr = z3.Lambda([j], z3.If(j < lo, z3.Select(old_arr, j),
-                                           z3.If(j < lo + vn, z3.Select(varr, j - lo),
-                                                 z3.Select(old_arr, j - vn + hi))))
+            obj.arr = def_array(ip, j, z3.If(j < lo, z3.Select(old_arr, j),
+                                             z3.If(j < lo + vn, z3.Select(varr, j - lo),
+                                                   z3.Select(old_arr, j - vn + hi))), 'splice')
             obj.n = z3.simplify(old_n - (hi - lo) + vn)
             obj.ghost = {}
             obj._writeback()
@@ -1650,7 +1662,7 @@ def _enumerate(ip, args, kwargs, node, fr):
             return VList(None, z3.IntVal(0), None)
         k = KTuple(KInt, v.ek)
         j = z3.Int(ip.fresh_name('j'))
-        arr = z3.Lambda([j], k.sort().constructor(0)(j, z3.Select(v.arr, j)))
+        arr = def_array(ip, j, k.sort().constructor(0)(j, z3.Select(v.arr, j)), 'enumerate')
         return VList(arr, v.n, k)
     raise EngineError(f'enumerate of {v!r}')
 
@@ -1666,7 +1678,7 @@ def _zip(ip, args, kwargs, node, fr):
             return VList(None, z3.IntVal(0), None)
         k = KTuple(*[v.ek for v in vs])
         j = z3.Int(ip.fresh_name('j'))
-        arr = z3.Lambda([j], k.sort().constructor(0)(*[z3.Select(v.arr, j) for v in vs]))
+        arr = def_array(ip, j, k.sort().constructor(0)(*[z3.Select(v.arr, j) for v in vs]), 'zip')
         n = vs[0].n
         for v in vs[1:]:
             n = z3.If(v.n < n, v.n, n)
@@ -1853,13 +1865,13 @@ def to_list(ip, v, node):
         return enum_list(ip, dom, ek)
     if isinstance(v, VRange):
         j = z3.Int(ip.fresh_name('j'))
-        arr = z3.Lambda([j], int_term(v.start) + j * int_term(v.step))
+        arr = def_array(ip, j, int_term(v.start) + j * int_term(v.step), 'range')
         return VList(arr, v.count_term(), KInt)
     if isinstance(v, VJList):
         n = UF('jlist_len', z3.IntSort(), z3.IntSort())(v.ident)
         ip.assume(n >= 0)
         j = z3.Int(ip.fresh_name('j'))
-        arr = z3.Lambda([j], UF('jlist_item', z3.IntSort(), z3.IntSort(), J_sort())(v.ident, j))
+        arr = def_array(ip, j, UF('jlist_item', z3.IntSort(), z3.IntSort(), J_sort())(v.ident, j), 'jlist')
         return VList(arr, n, KJ)
     if isinstance(v, VConst) and v.py is None or is_intlike(v) or isinstance(v, VFloat):
         raise PyRaise(VExc('TypeError'), node)
@@ -2424,6 +2436,7 @@ def comprehension(ip, e, fr, kind):
     items = ip.concrete_items(src)
     sub = Frame(fr.mod, fr.fkey, {}, parent=fr, contract=None)
     sub.old = fr.old
+    sub.scratch = True        # comprehension scope: its variables are not the function's
     if items is not None:
         out = []
         for x in items:
@@ -2483,7 +2496,7 @@ def comprehension(ip, e, fr, kind):
                 body = z3.And(body, cond)
             return VSet(z3.Lambda([y], z3.Exists([J], body)), ek)
         if cond is None:
-            return VList(z3.Lambda([J], vt), n, ek)
+            return VList(def_array(ip, J, vt, 'comp'), n, ek)
         # filtered subsequence: result R with a strictly increasing index map
         R = KList(ek).fresh(ip, 'filt')
         idx = z3.Function(ip.fresh_name('fidx'), z3.IntSort(), z3.IntSort())
@@ -2535,7 +2548,7 @@ def comprehension(ip, e, fr, kind):
         # a list of images, one per source element, arbitrary order
         base = enum_list(ip, name_set(ip, X, member, ek), ek)
         j = z3.Int(ip.fresh_name('j'))
-        arr = z3.Lambda([j], z3.substitute(vt, (X, z3.Select(base.arr, j))))
+        arr = def_array(ip, j, z3.substitute(vt, (X, z3.Select(base.arr, j))), 'image')
         return VList(arr, base.n, rk)
     return enum_list(ip, sset, rk)
 
@@ -2546,7 +2559,7 @@ def comprehension(ip, e, fr, kind):
 SPEC_FUNCS = {'old', 'forall', 'exists', 'implies', 'iff', 'ite', 'dom', 'union', 'inter', 'diff', 'subset',
               'empty', 'add', 'remove', 'use', 'check', 'assume', 'pow2', 'store', 'lookup', 'has',
               'is_none', 'some', 'slice_', 'concat', 'listof', 'setof', 'card', 'fresh', 'havoc', 'tup',
-              'seq_eq', 'div', 'mod', 'bv', 'apply', 'let'}
+              'seq_eq', 'div', 'mod', 'bv', 'apply', 'let', 'take', 'snoc', 'copy', 'drop', 'sub'}
 
 
 def find_old(fr):
@@ -2604,7 +2617,42 @@ def spec_call(ip, e, fr):
     if name == 'iff':
         return KBool.wrap(bt(e.args[0]) == bt(e.args[1]))
     if name == 'ite':
-        return ip.ite(bt(e.args[0]), ev(e.args[1]), ev(e.args[2]))
+        c = z3.simplify(bt(e.args[0]))
+        if z3.is_true(c):
+            return ev(e.args[1])
+        if z3.is_false(c):
+            return ev(e.args[2])
+        return ip.ite(c, ev(e.args[1]), ev(e.args[2]))
+    if name == 'take':
+        l = ev(e.args[0])
+        return VList(l.arr, int_term(ev(e.args[1])), l.ek)
+    if name == 'drop':
+        l = ev(e.args[0])
+        k = int_term(ev(e.args[1]))
+        j = z3.Int(ip.fresh_name('j'))
+        return VList(def_array(ip, j, z3.Select(l.arr, j + k), 'drop'), z3.simplify(l.n - k), l.ek)
+    if name == 'sub':
+        # sub(l, a, n): the n elements of l starting at a
+        l = ev(e.args[0])
+        a = int_term(ev(e.args[1]))
+        j = z3.Int(ip.fresh_name('j'))
+        return VList(def_array(ip, j, z3.Select(l.arr, j + a), 'sub'), int_term(ev(e.args[2])), l.ek)
+    if name == 'snoc':
+        l = ev(e.args[0])
+        x = ev(e.args[1])
+        return VList(z3.Store(l.arr, l.n, l.ek.unwrap(x)), z3.simplify(l.n + 1), l.ek)
+    if name == 'copy':
+        v = ev(e.args[0])
+        if isinstance(v, VList):
+            return VList(v.arr, v.n, v.ek)
+        if isinstance(v, VSet):
+            return VSet(v.dom, v.ek)
+        if isinstance(v, VDict):
+            return VDict(v.map, v.dom, v.kk, v.vk, v.default)
+        return v
+    if name == 'listof':
+        k = ev(e.args[0]).k
+        return VList(z3.K(z3.IntSort(), default_term(k)), z3.IntVal(0), k)
     if name == 'let':
         # let(lambda x=expr: body)
         lam = e.args[0]
@@ -2696,12 +2744,10 @@ def spec_call(ip, e, fr):
         ip.V.used_axioms.add(nm)
         if ax.kind == 'assumed':
             ip.assumed.add(f'assumed lemma {nm}')
-        if ax.kind == 'lemma' and hyps:
-            for i, h in enumerate(hyps):
-                ip.prove(f'{ip.cur_fn}.use@{nm}.hyp{i}', h)
-            ip.assume(body)
-        else:
-            ip.assume(z3.Implies(z3.And(*hyps), body) if hyps else body)
+        if ax.kind == 'induction':
+            ip.assumed.add(f'induction principle (meta rule) applied to lemmas {ax.base}/{ax.step} giving {nm}')
+        # a proved lemma / definition may always be assumed in the form hyps => conclusion
+        ip.assume(z3.Implies(z3.And(*hyps), body) if hyps else body)
         return VConst(None)
     if name == 'check':
         lab = e.args[0].value
@@ -2715,3 +2761,25 @@ def spec_call(ip, e, fr):
         k = ev(e.args[0]).k
         return k.fresh(ip, 'g')
     raise EngineError(f'specification function {name} not implemented')
+
+
+@builtin('math.log')
+def _log(ip, args, kwargs, node, fr):
+    '''T-LOG: math.log(n, 2) for an integer n >= 1 returns a double r close to log2 n; no
+    exactness at powers of two is assumed (CPython computes log(n)/log(2) in floating point).'''
+    ip.assumed.add('T-LOG: math.log(n, 2) = log2(n) up to a relative floating-point error; not exact at powers of two')
+    x = resolve(ip, args[0])
+    if len(args) != 2 or not (isinstance(resolve(ip, args[1]), VConst) and resolve(ip, args[1]).py == 2):
+        raise EngineError('math.log with a base other than 2')
+    if not is_intlike(x):
+        raise EngineError('math.log of a non-integer')
+    n = int_term(x)
+    if ip.branch(n <= 0):
+        raise PyRaise(VExc('ValueError'), node)
+    k = z3.Int(ip.fresh_name('lg'))
+    r = z3.Real(ip.fresh_name('logr'))
+    d = z3.Real(ip.fresh_name('ulp'))
+    ip.assume(z3.And(k >= 0, ip.pow2(k) <= n, n < ip.pow2(k + 1)))
+    ip.assume(z3.And(d > 0, d < z3.RealVal('1/4')))
+    ip.assume(z3.And(r >= z3.ToReal(k) - d, r <= z3.ToReal(k) + 1 + d))
+    return VReal(r)
